@@ -41,6 +41,24 @@ Proof.
     econstructor; [exact Hr|apply (Hin t c); now left|exact E].
 Qed.
 
+(* a run() whose callbacks re-arm their nodes is a run() followed by registrations: reachable *)
+Lemma w_rearm_reach U t : In t U -> forall ns s tr acc s' evs,
+  reach_wo U s (tr ++ acc) -> w_rearm gen_w_step t ns s acc = Ok (s', evs) -> reach_wo U s' (tr ++ evs).
+Proof.
+  intros Ht. induction ns as [|n r IH]; intros s tr acc s' evs Hr H; cbn [w_rearm] in H.
+  - inversion H; subst. exact Hr.
+  - destruct (gen_w_step t (CAwait n) s) as [[s1 e1]| | | |] eqn:E; cbn [bind] in H; try discriminate.
+    apply (IH s1 tr (acc ++ e1) s' evs); [|exact H]. rewrite app_assoc. econstructor; eassumption.
+Qed.
+
+Lemma run_rearm_reach U t flag s tr s' evs :
+  reach_wo U s tr -> In t U -> gen_w_run_rearm t flag s = Ok (s', evs) -> reach_wo U s' (tr ++ evs).
+Proof.
+  intros Hr Ht H. unfold gen_w_run_rearm in H.
+  destruct (gen_w_step t CRun s) as [[s1 e1]| | | |] eqn:E; cbn [bind] in H; try discriminate.
+  apply (w_rearm_reach U t Ht (filter flag (fired_nodes e1)) s1 tr e1 s' evs); [|exact H]. econstructor; eassumption.
+Qed.
+
 Section Gen.
 Variable U : list tid.
 Hypothesis ND : NoDup U.
